@@ -140,6 +140,16 @@ pub enum K {
     Write { l: usize },
     TryWrite { l: usize },
     UnlockW { l: usize },
+    // ---- the protected value (through the guard the thread holds / through `&mut` or by value
+    // once no other thread can touch the lock any more)
+    GSet { m: usize, v: u64 },
+    GGet { m: usize },
+    LSet { l: usize, v: u64 },
+    LGet { l: usize },
+    MGetMut { m: usize },
+    MIntoInner { m: usize },
+    LGetMut { l: usize },
+    LIntoInner { l: usize },
     // ---- condvar / notify / park
     Wait { cv: usize, m: usize },
     NotifyOne { cv: usize },
@@ -405,6 +415,14 @@ pub fn op_text(op: &Op) -> String {
         K::Write { l } => write!(s, "write l{}", l),
         K::TryWrite { l } => write!(s, "trywrite l{}", l),
         K::UnlockW { l } => write!(s, "unlockw l{}", l),
+        K::GSet { m, v } => write!(s, "gset m{}={}", m, v),
+        K::GGet { m } => write!(s, "gget m{}", m),
+        K::LSet { l, v } => write!(s, "lset l{}={}", l, v),
+        K::LGet { l } => write!(s, "lget l{}", l),
+        K::MGetMut { m } => write!(s, "get_mut m{}", m),
+        K::MIntoInner { m } => write!(s, "into_inner m{}", m),
+        K::LGetMut { l } => write!(s, "get_mut l{}", l),
+        K::LIntoInner { l } => write!(s, "into_inner l{}", l),
         K::Wait { cv, m } => write!(s, "wait cv{} m{}", cv, m),
         K::NotifyOne { cv } => write!(s, "notify_one cv{}", cv),
         K::NotifyAll { cv } => write!(s, "notify_all cv{}", cv),
@@ -501,11 +519,11 @@ pub fn rust_test(p: &Program) -> String {
         names.push(format!("c{}", i));
     }
     for i in 0..o.mutexes {
-        let _ = writeln!(s, "        let m{} = SArc::new(loom::sync::Mutex::new(()));", i);
+        let _ = writeln!(s, "        let m{} = SArc::new(loom::sync::Mutex::new(0u64));", i);
         names.push(format!("m{}", i));
     }
     for i in 0..o.rwlocks {
-        let _ = writeln!(s, "        let l{} = SArc::new(loom::sync::RwLock::new(()));", i);
+        let _ = writeln!(s, "        let l{} = SArc::new(loom::sync::RwLock::new(0u64));", i);
         names.push(format!("l{}", i));
     }
     for i in 0..o.condvars {
@@ -556,11 +574,11 @@ fn emit_thread(s: &mut String, p: &Program, t: usize, ind: &str) {
     let o = &p.objs;
     let _ = writeln!(s, "{}let mut r: Vec<String> = vec![];", ind);
     for i in 0..o.mutexes {
-        let _ = writeln!(s, "{}let mut g_m{}: Option<loom::sync::MutexGuard<'_, ()>> = None;", ind, i);
+        let _ = writeln!(s, "{}let mut g_m{}: Option<loom::sync::MutexGuard<'_, u64>> = None;", ind, i);
     }
     for i in 0..o.rwlocks {
-        let _ = writeln!(s, "{}let mut g_l{}r: Option<loom::sync::RwLockReadGuard<'_, ()>> = None;", ind, i);
-        let _ = writeln!(s, "{}let mut g_l{}w: Option<loom::sync::RwLockWriteGuard<'_, ()>> = None;", ind, i);
+        let _ = writeln!(s, "{}let mut g_l{}r: Option<loom::sync::RwLockReadGuard<'_, u64>> = None;", ind, i);
+        let _ = writeln!(s, "{}let mut g_l{}w: Option<loom::sync::RwLockWriteGuard<'_, u64>> = None;", ind, i);
     }
     for op in &p.threads[t] {
         let code = rust_op(t, &op.k);
@@ -603,6 +621,15 @@ fn rust_op(t: usize, k: &K) -> String {
         K::Write { l } => format!("g_l{0}w = Some(l{0}.write().unwrap()); {1}", l, u),
         K::TryWrite { l } => format!("match l{0}.try_write() {{ Ok(g) => {{ g_l{0}w = Some(g); r.push(\"Ok0\".into()); }} Err(_) => r.push(\"Err0\".into()) }}", l),
         K::UnlockW { l } => format!("drop(g_l{}w.take()); {}", l, u),
+        K::GSet { m, v } => format!("**g_m{}.as_mut().unwrap() = {}; {}", m, v, u),
+        K::GGet { m } => format!("r.push((**g_m{}.as_ref().unwrap()).to_string());", m),
+        K::LSet { l, v } => format!("**g_l{}w.as_mut().unwrap() = {}; {}", l, v, u),
+        K::LGet { l } => format!("r.push(match (&g_l{0}r, &g_l{0}w) {{ (Some(g), _) => **g, (_, Some(g)) => **g, _ => unreachable!() }}.to_string());", l),
+        // the lock sits in a std Arc shared with the (finished) threads: go through the pointer
+        K::MGetMut { m } => format!("r.push(unsafe {{ *(*(SArc::as_ptr(&m{}) as *mut loom::sync::Mutex<u64>)).get_mut().unwrap() }}.to_string());", m),
+        K::LGetMut { l } => format!("r.push(unsafe {{ *(*(SArc::as_ptr(&l{}) as *mut loom::sync::RwLock<u64>)).get_mut().unwrap() }}.to_string());", l),
+        K::MIntoInner { m } => format!("r.push(SArc::try_unwrap(m{}).ok().expect(\"mutex still shared\").into_inner().unwrap().to_string());", m),
+        K::LIntoInner { l } => format!("r.push(SArc::try_unwrap(l{}).ok().expect(\"rwlock still shared\").into_inner().unwrap().to_string());", l),
         K::Wait { cv, m } => format!("g_m{1} = Some(cv{0}.wait(g_m{1}.take().unwrap()).unwrap()); {2}", cv, m, u),
         K::NotifyOne { cv } => format!("cv{}.notify_one(); {}", cv, u),
         K::NotifyAll { cv } => format!("cv{}.notify_all(); {}", cv, u),
